@@ -127,6 +127,18 @@ func (x *Exec) alternatives() []string {
 	// canonical order = by name, NOT by registration time: which of two concurrently running goroutines reaches its
 	// gate first is decided by the Go scheduler, and the enumeration must not depend on it.
 	sort.Slice(pend, func(i, j int) bool { return pend[i].Name < pend[j].Name })
+	// gates named "~~idle:..." come after everything else, even after the passage of time: by default they are granted
+	// only when no timer is left to fire (an environment that stays quiet for as long as the engine has anything scheduled)
+	var idle []PendingGate
+	busy := pend[:0:0]
+	for _, p := range pend {
+		if strings.HasPrefix(p.Name, "~~idle:") {
+			idle = append(idle, p)
+		} else {
+			busy = append(busy, p)
+		}
+	}
+	pend = busy
 	for _, p := range pend {
 		alts = append(alts, "g:"+p.Name+"="+p.Menu[0])
 	}
@@ -153,6 +165,11 @@ func (x *Exec) alternatives() []string {
 	}
 	if x.TickEnabled && !x.timeIdle && x.ticks < x.MaxTicks {
 		alts = append(alts, "tick")
+	}
+	for _, p := range idle {
+		for _, a := range p.Menu {
+			alts = append(alts, "g:"+p.Name+"="+a)
+		}
 	}
 	if x.Filter != nil {
 		out := alts[:0]
